@@ -275,14 +275,14 @@ def run(facts, res):
             cl = _top_closure(c[2][1]) if len(c[2]) > 1 else None
             cb_ = facts.body(cl[1]) if cl is not None else None
             ls_ = closure_result_lits(cb_, facts, True) if cb_ is not None else []
-            for l in ls_:
-                if l.kind == "cmp" and any(x[0] == "call" and callee_name(x) == "len" for x in walk(l.term)) and \
-                        any(x[0] == "call" and callee_name(x) == "get_leafs" for x in walk(l.term)):
-                    ok_ic = True
-                elif l.kind == "variant" and l.variants and l.variants <= {"Ok", "Some"}:
-                    continue
-                else:
-                    extra.append(repr(l))
+            from ..conds import unaccepted
+
+            def leaf_count(l):
+                return l.kind == "cmp" and any(x[0] == "call" and callee_name(x) == "len" for x in walk(l.term)) and \
+                    any(x[0] == "call" and callee_name(x) == "get_leafs" for x in walk(l.term))
+            if any(leaf_count(l) for l in ls_):
+                ok_ic = True
+            extra += [repr(l) for l in unaccepted(ls_, lambda l: leaf_count(l) or (l.kind == "variant" and l.variants and l.variants <= {"Ok", "Some"}))]
         # plain-loop form: every insertion into the result is dominated by the leaf-count literal only
         if not sel:
             for bi, t in ic.calls():
